@@ -103,7 +103,7 @@ func runC20(c *report.Ctx) {
 		var addIn ssa.Instruction
 		ngo := 0
 		an.Instrs(start, func(in ssa.Instruction) {
-			if cc := an.CallOf(in); cc != nil && cc.StaticCallee() != nil && an.FuncKey(cc.StaticCallee()) == "(*sync.WaitGroup).Add" && strings.HasSuffix(p.Desc(cc.Args[0]), "NtfnsHandler.quitWg") {
+			if cc := an.CallOf(in); cc != nil && cc.StaticCallee() != nil && an.CanonKeyOf(cc.StaticCallee()) == "(*sync.WaitGroup).Add" && strings.HasSuffix(p.Desc(cc.Args[0]), "NtfnsHandler.quitWg") {
 				if n, ok := constInt(cc.Args[1]); ok {
 					addN = n
 					addIn = in
@@ -129,7 +129,7 @@ func runC20(c *report.Ctx) {
 		for _, r := range roots {
 			okDone := false
 			for _, in := range r.Blocks[0].Instrs {
-				if d, ok := in.(*ssa.Defer); ok && d.Call.StaticCallee() != nil && an.FuncKey(d.Call.StaticCallee()) == "(*sync.WaitGroup).Done" && strings.HasSuffix(p.Desc(d.Call.Args[0]), "NtfnsHandler.quitWg") {
+				if d, ok := in.(*ssa.Defer); ok && d.Call.StaticCallee() != nil && an.CanonKeyOf(d.Call.StaticCallee()) == "(*sync.WaitGroup).Done" && strings.HasSuffix(p.Desc(d.Call.Args[0]), "NtfnsHandler.quitWg") {
 					okDone = true
 				}
 			}
@@ -152,7 +152,7 @@ func runC20(c *report.Ctx) {
 			if b, ok := cc.Value.(*ssa.Builtin); ok && b.Name() == "close" && isQuit(cc.Args[0]) {
 				closeQuit = in
 			}
-			if cc.StaticCallee() != nil && an.FuncKey(cc.StaticCallee()) == "(*sync.WaitGroup).Wait" && strings.HasSuffix(p.Desc(cc.Args[0]), "NtfnsHandler.quitWg") {
+			if cc.StaticCallee() != nil && an.CanonKeyOf(cc.StaticCallee()) == "(*sync.WaitGroup).Wait" && strings.HasSuffix(p.Desc(cc.Args[0]), "NtfnsHandler.quitWg") {
 				wait = in
 			}
 			if cc.StaticCallee() == closeDB {
@@ -188,11 +188,11 @@ func runC20(c *report.Ctx) {
 				return
 			}
 			switch {
-			case an.FuncKey(cc.StaticCallee()) == "(*sync.WaitGroup).Add":
+			case an.CanonKeyOf(cc.StaticCallee()) == "(*sync.WaitGroup).Add":
 				add = in
 			case cc.StaticCallee() == stop:
 				st = in
-			case an.FuncKey(cc.StaticCallee()) == "(*sync.WaitGroup).Wait":
+			case an.CanonKeyOf(cc.StaticCallee()) == "(*sync.WaitGroup).Wait":
 				wt = in
 			}
 		})
@@ -239,66 +239,203 @@ func runC20(c *report.Ctx) {
 }
 
 // ruleSuspendResume is shared with C07.
-func ruleSuspendResume(c *report.Ctx) {
-	p := c.P
-	c.Rule("suspend-resume", "in the background tasks every successful suspend is followed by resume on every path to a return or to the next suspend, and every transaction lies between them", 5)
-	suspend := fn(c, pkgWallet, "NtfnsHandler", "suspend")
-	resume := fn(c, pkgWallet, "NtfnsHandler", "resume")
-	upd := fn(c, pkgDB, "", "Update")
-	if suspend == nil || resume == nil || upd == nil {
-		return
+// handShake describes where the suspend/resume rendezvous of the background tasks happens, by what the code does:
+// a send on NtfnsHandler.sigSuspend / sigResume (plain or as a select case). The functions that do nothing but that
+// (the recorded suspend and resume, or whatever replaced them) are the mechanism functions; a task may also carry the
+// operation in line.
+type handShake struct {
+	p          *an.Prog
+	suspendFns map[*ssa.Function]bool
+	resumeFns  map[*ssa.Function]bool
+}
+
+func sendsOn(p *an.Prog, in ssa.Instruction, field string) bool {
+	switch x := in.(type) {
+	case *ssa.Send:
+		return strings.HasSuffix(p.Desc(x.Chan), "NtfnsHandler."+field)
+	case *ssa.Select:
+		for _, st := range x.States {
+			if st.Dir == types.SendOnly && strings.HasSuffix(p.Desc(st.Chan), "NtfnsHandler."+field) {
+				return true
+			}
+		}
 	}
-	// callsResume: instruction calls resume directly, or defers a closure that does
-	callsResume := func(in ssa.Instruction) bool {
-		cc := an.CallOf(in)
-		if cc == nil {
-			return false
+	return false
+}
+
+var handShakeCache = map[*an.Prog]*handShake{}
+
+func handShakeOf(p *an.Prog) *handShake {
+	if h, ok := handShakeCache[p]; ok {
+		return h
+	}
+	h := &handShake{p: p, suspendFns: map[*ssa.Function]bool{}, resumeFns: map[*ssa.Function]bool{}}
+	tasks := map[string]bool{"asyncImport": true, "asyncRemove": true}
+	for _, f := range p.ModFuncs {
+		pk := an.FuncPkg(f)
+		if pk == nil || pk.Path() != pkgWallet || f.Blocks == nil || tasks[nm(f)] {
+			continue
 		}
-		if cc.StaticCallee() == resume {
-			return true
+		an.Instrs(f, func(in ssa.Instruction) {
+			if sendsOn(p, in, "sigSuspend") {
+				h.suspendFns[f] = true
+			}
+			if sendsOn(p, in, "sigResume") {
+				h.resumeFns[f] = true
+			}
+		})
+	}
+	// a wrapper that only adds logging around a mechanism function is one too
+	for round := 0; round < 2; round++ {
+		for _, f := range p.ModFuncs {
+			pk := an.FuncPkg(f)
+			if pk == nil || pk.Path() != pkgWallet || f.Blocks == nil || tasks[nm(f)] || f.Parent() != nil {
+				continue
+			}
+			if nm(f) != "suspend" && nm(f) != "resume" {
+				continue
+			}
+			an.Instrs(f, func(in ssa.Instruction) {
+				if cc := an.CallOf(in); cc != nil && cc.StaticCallee() != nil {
+					if h.suspendFns[cc.StaticCallee()] {
+						h.suspendFns[f] = true
+					}
+					if h.resumeFns[cc.StaticCallee()] {
+						h.resumeFns[f] = true
+					}
+				}
+			})
 		}
-		if d, ok := in.(*ssa.Defer); ok {
-			for _, cal := range p.Callees(d) {
-				if len(calls(cal, resume)) > 0 {
-					return true
+	}
+	handShakeCache[p] = h
+	return h
+}
+
+// isSuspend / isResume: the instruction performs (or calls a mechanism function that performs) the hand-shake step.
+func (h *handShake) isSuspend(in ssa.Instruction) bool {
+	if sendsOn(h.p, in, "sigSuspend") {
+		return true
+	}
+	if _, isDefer := in.(*ssa.Defer); isDefer {
+		return false
+	}
+	cc := an.CallOf(in)
+	return cc != nil && cc.StaticCallee() != nil && h.suspendFns[cc.StaticCallee()]
+}
+
+func (h *handShake) isResume(in ssa.Instruction) bool {
+	if sendsOn(h.p, in, "sigResume") {
+		return true
+	}
+	cc := an.CallOf(in)
+	if cc == nil {
+		return false
+	}
+	if cc.StaticCallee() != nil && h.resumeFns[cc.StaticCallee()] {
+		return true
+	}
+	if d, ok := in.(*ssa.Defer); ok {
+		for _, cal := range h.p.Callees(d) {
+			found := false
+			an.Instrs(cal, func(x ssa.Instruction) {
+				if _, nested := x.(*ssa.Defer); !nested && h.isResume(x) {
+					found = true
+				}
+			})
+			if found {
+				return true
+			}
+		}
+	}
+	return false
+}
+
+// successStart: where the search starts after a suspend step — the continuation on which the follower is parked.
+func (h *handShake) successStart(s ssa.Instruction) (*ssa.BasicBlock, int, *ssa.BasicBlock) {
+	p := h.p
+	startBlk, startIdx, pred := s.Block(), 0, (*ssa.BasicBlock)(nil)
+	for j, in := range startBlk.Instrs {
+		if in == s {
+			startIdx = j + 1
+		}
+	}
+	switch sv := s.(type) {
+	case *ssa.Call:
+		// a mechanism function that reports success as a bool
+		if b, isB := sv.Type().Underlying().(*types.Basic); isB && b.Info()&types.IsBoolean != 0 {
+			for _, r := range *sv.Referrers() {
+				if ifi := ifOf(r); ifi != nil {
+					a := p.MkAtom(ifi.Cond, true, ifi)
+					if a.Truth {
+						return ifi.Block().Succs[0], 0, ifi.Block()
+					}
+					return ifi.Block().Succs[1], 0, ifi.Block()
 				}
 			}
 		}
-		return false
+	case *ssa.Select:
+		// the case that sent on sigSuspend
+		idx := -1
+		for i, st := range sv.States {
+			if st.Dir == types.SendOnly && strings.HasSuffix(p.Desc(st.Chan), "NtfnsHandler.sigSuspend") {
+				idx = i
+			}
+		}
+		for _, r := range *sv.Referrers() {
+			ex, ok := r.(*ssa.Extract)
+			if !ok || ex.Index != 0 {
+				continue
+			}
+			for _, u := range *ex.Referrers() {
+				bo, ok := u.(*ssa.BinOp)
+				if !ok || bo.Op != token.EQL {
+					continue
+				}
+				if k, isK := constInt(bo.Y); !isK || int(k) != idx {
+					continue
+				}
+				for _, rr := range *bo.Referrers() {
+					if ifi, ok := rr.(*ssa.If); ok {
+						return ifi.Block().Succs[0], 0, ifi.Block()
+					}
+				}
+			}
+		}
 	}
+	return startBlk, startIdx, pred
+}
+
+func ruleSuspendResume(c *report.Ctx) {
+	p := c.P
+	c.Rule("suspend-resume", "in the background tasks every successful suspend is followed by resume on every path to a return or to the next suspend, and every transaction lies between them", 5)
+	upd := fn(c, pkgDB, "", "Update")
+	if upd == nil {
+		return
+	}
+	hs := handShakeOf(p)
+	callsResume := hs.isResume
 	for _, name := range []string{"asyncImport", "asyncRemove"} {
 		f := fn(c, pkgWallet, "NtfnsHandler", name)
 		if f == nil {
 			continue
 		}
-		ss := calls(f, suspend)
+		var ss, rs []ssa.Instruction
+		an.Instrs(f, func(in ssa.Instruction) {
+			if hs.isSuspend(in) {
+				ss = append(ss, in)
+			}
+			if _, isDefer := in.(*ssa.Defer); !isDefer && hs.isResume(in) {
+				rs = append(rs, in)
+			}
+		})
 		if len(ss) == 0 {
 			c.Fail(sk(f)+":suspend", "the task no longer parks the follower before touching the database", p.Pos(f.Pos()))
 			continue
 		}
 		for i, s := range ss {
 			key := siteKey(f, "suspend~resume", i+1)
-			// start from the success continuation of suspend (its bool result true), or right after the call when it returns nothing
-			startBlk, startIdx, pred := s.Block(), 0, (*ssa.BasicBlock)(nil)
-			for j, in := range startBlk.Instrs {
-				if in == s {
-					startIdx = j + 1
-				}
-			}
-			if sv, ok := s.(*ssa.Call); ok && sv.Type() != nil {
-				if b, isB := sv.Type().Underlying().(*types.Basic); isB && b.Info()&types.IsBoolean != 0 {
-					for _, r := range *sv.Referrers() {
-						if ifi := ifOf(r); ifi != nil {
-							a := p.MkAtom(ifi.Cond, true, ifi)
-							if a.Truth {
-								startBlk, startIdx, pred = ifi.Block().Succs[0], 0, ifi.Block()
-							} else {
-								startBlk, startIdx, pred = ifi.Block().Succs[1], 0, ifi.Block()
-							}
-						}
-					}
-				}
-			}
+			// start from the success continuation of suspend (its bool result true / the select case that sent), or right after it
+			startBlk, startIdx, pred := hs.successStart(s)
 			srch := &an.Search{P: p, Fn: f, Cut: callsResume,
 				GoalReturn: func(r *ssa.Return, pr *ssa.BasicBlock) bool { return true },
 				GoalBlock: func(b, pr *ssa.BasicBlock) bool {
@@ -306,7 +443,7 @@ func ruleSuspendResume(c *report.Ctx) {
 						if callsResume(in) {
 							return false
 						}
-						if cc := an.CallOf(in); cc != nil && cc.StaticCallee() == suspend && in != s {
+						if hs.isSuspend(in) && in != s {
 							return true
 						}
 						if in == s && b != startBlk {
@@ -335,7 +472,7 @@ func ruleSuspendResume(c *report.Ctx) {
 				continue
 			}
 			bad := false
-			for _, r := range calls(f, resume) {
+			for _, r := range rs {
 				b := r.Block()
 				idx := 0
 				for j, in := range b.Instrs {
@@ -343,10 +480,7 @@ func ruleSuspendResume(c *report.Ctx) {
 						idx = j + 1
 					}
 				}
-				srch := &an.Search{P: p, Fn: f, Cut: func(in ssa.Instruction) bool {
-					cc := an.CallOf(in)
-					return cc != nil && cc.StaticCallee() == suspend
-				}, GoalInstr: func(in ssa.Instruction) bool { return in == u }}
+				srch := &an.Search{P: p, Fn: f, Cut: hs.isSuspend, GoalInstr: func(in ssa.Instruction) bool { return in == u }}
 				w := srch.Run(b, idx, nil)
 				if w != nil {
 					bad = true
